@@ -97,6 +97,7 @@ def variants():
         ("inexgrad_rel", one_fun(PS.inexact_gradient_step, 1, P(0), Fn, G, Ep, notion="relative"), ["γ", "ε"]),
         ("linesearch2", one_fun(PS.exact_linesearch_step, 3, P(0), Fn, lambda pts, f: [pts[1], pts[2]]), []),
         ("linesearch0", one_fun(PS.exact_linesearch_step, 1, P(0), Fn, lambda pts, f: []), []),
+        ("linesearch30", one_fun(PS.exact_linesearch_step, 31, P(0), Fn, lambda pts, f: pts[1:]), []),        # more directions than letters, than 16
         ("linopt", one_fun(PS.linear_optimization_step, 1, P(0), Fn), []),
         ("epssub", one_fun(PS.epsilon_subgradient_step, 1, P(0), Fn, G), ["γ"]),
         ("inexprox1", one_fun(PS.inexact_proximal_step, 1, P(0), Fn, G, opt="PD_gapI"), ["γ"]),
